@@ -54,21 +54,21 @@ type Iter struct {
 }
 
 type Val struct {
-	T   types.Type
-	K   VK
-	S   string
-	Arr string
-	Len string
-	Fs  []Val
-	A   *Addr
-	Fn  *ssa.Function
-	It  *Iter
-	Box *Val // value boxed into an interface (non-pointer dynamic type)
-	Num string
+	T    types.Type
+	K    VK
+	S    string
+	Arr  string
+	Len  string
+	Fs   []Val
+	A    *Addr
+	Fn   *ssa.Function
+	It   *Iter
+	Box  *Val // value boxed into an interface (non-pointer dynamic type)
+	Num  string
 	Inf  string // float64 value is +Inf (x/0 with x > 0)
 	NInf string // float64 value is -Inf (x/0 with x < 0)
-	Sp  string // "special" flag of a float64 value: NaN / Inf (division by a non-positive value); "" = false
-	Den string
+	Sp   string // "special" flag of a float64 value: NaN / Inf (division by a non-positive value); "" = false
+	Den  string
 	// provenance: value was loaded from this package-level variable (for table lookups)
 	Glob *ssa.Global
 }
@@ -275,10 +275,10 @@ func pathName(root types.Type, path []int) string {
 type Heap struct {
 	m      map[string]string // heap array name -> current term
 	alloc  string
-	lock   string         // lock discipline: "" not held | "r" | "w" (path-sensitive, merged conservatively)
-	formal *formalHeap    // non-nil: a heap made of formal array parameters (spec function bodies) or of separately declared symbols (lemma proofs)
+	lock   string                     // lock discipline: "" not held | "r" | "w" (path-sensitive, merged conservatively)
+	formal *formalHeap                // non-nil: a heap made of formal array parameters (spec function bodies) or of separately declared symbols (lemma proofs)
 	bases  map[string]map[string]bool // which cells were written since the enclosing loop cut ("*" = unknown)
-	dirty  map[string]int // written since the enclosing loop cut: minimum allocation serial of the written base refs (0 = pre-existing memory)
+	dirty  map[string]int             // written since the enclosing loop cut: minimum allocation serial of the written base refs (0 = pre-existing memory)
 }
 
 type formalHeap struct {
